@@ -38,20 +38,20 @@ type gtFunc struct {
 }
 
 type gotr struct {
-	fset   *token.FileSet
-	funcs  map[string]*gtFunc // "Recv.Name" or "Name"
-	err    error
-	out    *strings.Builder // finished definitions (loop functions come before their parent)
-	cur    *gtFunc
-	curKey string
-	nloop  int
-	scopes []map[string]string // local name -> Go type
-	order  []string            // locals in definition order (for loop-function parameters)
-	named  []string            // named results of the current function
-	depth  int                 // loop nesting depth
-	mut    map[string]bool     // variables assigned somewhere in the current function
-	innerRet bool              // translating the body of a nested loop that contains a return
-	recCalls []string          // the recursive call of each enclosing loop (what `continue` does)
+	fset     *token.FileSet
+	funcs    map[string]*gtFunc // "Recv.Name" or "Name"
+	err      error
+	out      *strings.Builder // finished definitions (loop functions come before their parent)
+	cur      *gtFunc
+	curKey   string
+	nloop    int
+	scopes   []map[string]string // local name -> Go type
+	order    []string            // locals in definition order (for loop-function parameters)
+	named    []string            // named results of the current function
+	depth    int                 // loop nesting depth
+	mut      map[string]bool     // variables assigned somewhere in the current function
+	innerRet bool                // translating the body of a nested loop that contains a return
+	recCalls []string            // the recursive call of each enclosing loop (what `continue` does)
 }
 
 func (t *gotr) fail(n ast.Node, why string) {
